@@ -74,6 +74,16 @@ theorem run_filter {σ π Out : Type} (M : Machine σ π Out) (ops : List (Multi
       have := ih (MultiRecv.step M s (.setFiltering x)).1 c b (by rw [hf]; exact h) hc hb
       rw [hf] at this
       simpa only [fops, MultiRecv.run] using this
+    | addListener =>
+      have hf : (MultiRecv.step M s .addListener).1.filter = s.filter := congrArg Ctl.filter hctl
+      have := ih (MultiRecv.step M s .addListener).1 c b (by rw [hf]; exact h) hc hb
+      rw [hf] at this
+      simpa only [fops, MultiRecv.run] using this
+    | removeListener id =>
+      have hf : (MultiRecv.step M s (.removeListener id)).1.filter = s.filter := congrArg Ctl.filter hctl
+      have := ih (MultiRecv.step M s (.removeListener id)).1 c b (by rw [hf]; exact h) hc hb
+      rw [hf] at this
+      simpa only [fops, MultiRecv.run] using this
     | drop =>
       have hf : (MultiRecv.step M s .drop).1.filter = s.filter := congrArg Ctl.filter hctl
       have := ih (MultiRecv.step M s .drop).1 c b (by rw [hf]; exact h) hc hb
